@@ -30,7 +30,10 @@
 (*   none | unknown(point) | wrongtype(leaf) | range(leaf, bad value) |    *)
 (*   ph(leaf, env|property, set|unset) | emb(str leaf) | phnokey(str leaf, *)
 (*   ${property:file} without #key) | misspell(leaf, near miss of a       *)
-(*   documented key) | absent(leaf) |                                      *)
+(*   documented key) | phadv (placeholder against adversarial property    *)
+(*   files / environments) | absent(leaf) |                                *)
+(*   range = every VALUE CLASS of every documented constraint, inside and  *)
+(*   outside, with the boundary values.                                    *)
 (*   dropcomp(required component of a pool).                               *)
 (*                                                                         *)
 (* MODEL.  Decode is implementation shaped: placeholder substitution       *)
@@ -58,7 +61,36 @@ Leaf(p, k, d, f, r, fl) == [p |-> p, k |-> k, d |-> d, f |-> f, r |-> r, fl |-> 
 O(p, k, d, f) == Leaf(p, k, d, f, f, "opt")
 Pre(pre, ls) == [i \in 1..Len(ls) |-> [ls[i] EXCEPT !.p = pre \o @]]
 Ty(pre, name) == [p |-> pre \o <<"type">>, v |-> name]
-BadV(pre, p, k, r, why) == [p |-> pre \o p, k |-> k, r |-> r, why |-> why]
+\* VALUE CLASSES of a documented constraint: BadV = must be rejected, OkV = boundary value that must be accepted (and
+\* decode to the canonical text v).  Expected ok | error is the documented constraint's verdict on the class.
+BadV(pre, p, k, r, why)   == [p |-> pre \o p, k |-> k, r |-> r, why |-> why, ok |-> FALSE, v |-> ""]
+OkV(pre, p, k, r, v, why) == [p |-> pre \o p, k |-> k, r |-> r, why |-> why, ok |-> TRUE, v |-> v]
+Same(pre, p, k, r, why)   == OkV(pre, p, k, r, r, why)
+
+\* endpoint ("host:port" or ":port"; port 1..65535; host = IP, [IPv6] or DNS name), required
+EndpointC(pre, p) == LET e == "endpoint,required" IN <<
+    Same(pre, p, "str", ":8080", e), Same(pre, p, "str", ":1", e), Same(pre, p, "str", ":65535", e),
+    Same(pre, p, "str", "127.0.0.1:1", e), Same(pre, p, "str", "127.0.0.1:65535", e),
+    Same(pre, p, "str", "[::1]:8080", e), Same(pre, p, "str", "example.com:80", e),
+    BadV(pre, p, "str", "", e), BadV(pre, p, "str", "127.0.0.1", e), BadV(pre, p, "str", "127.0.0.1:", e),
+    BadV(pre, p, "str", ":", e), BadV(pre, p, "str", ":0", e), BadV(pre, p, "str", ":65536", e), BadV(pre, p, "str", ":70000", e),
+    BadV(pre, p, "str", ":-1", e), BadV(pre, p, "str", ":http", e), BadV(pre, p, "str", ":80 80", e),
+    BadV(pre, p, "str", "127.0.0.1:0", e), BadV(pre, p, "str", "127.0.0.1:65536", e), BadV(pre, p, "str", "127.0.0.1:70000", e),
+    BadV(pre, p, "str", "127.0.0.1:-1", e), BadV(pre, p, "str", "127.0.0.1:http", e), BadV(pre, p, "str", "127.0.0.1:80:90", e),
+    BadV(pre, p, "str", "::1:8080", e), BadV(pre, p, "str", "exa mple.com:80", e), BadV(pre, p, "str", "bad!host:80", e),
+    BadV(pre, p, "str", "not-an-endpoint", e), BadV(pre, p, "str", "host:notaport", e) >>
+\* min-time=1ms: 0, one nanosecond below, exactly the minimum, above
+MinTimeC(pre, p) == LET e == "min-time=1ms" IN <<
+    BadV(pre, p, "dur", "0s", e), BadV(pre, p, "dur", "999999ns", e), BadV(pre, p, "dur", "100us", e), BadV(pre, p, "dur", "-1s", e),
+    OkV(pre, p, "dur", "1ms", "1", e), OkV(pre, p, "dur", "2ms", "2", e) >>
+Min0F(pre, p) == << BadV(pre, p, "float", "-1", "min=0"), BadV(pre, p, "float", "-0.001", "min=0"),
+                    Same(pre, p, "float", "0", "min=0"), Same(pre, p, "float", "0.001", "min=0"), Same(pre, p, "float", "1", "min=0") >>
+Min0I(pre, p) == << BadV(pre, p, "int", "-1", "min=0"), Same(pre, p, "int", "0", "min=0"), Same(pre, p, "int", "1", "min=0") >>
+Min1I(pre, p) == << BadV(pre, p, "int", "-1", "min=1"), BadV(pre, p, "int", "0", "min=1"),
+                    Same(pre, p, "int", "1", "min=1"), Same(pre, p, "int", "2", "min=1") >>
+FilterC(pre) == LET p == <<"answlog", "filter">> e == "all | warning | error" IN <<
+    Same(pre, p, "str", "all", e), Same(pre, p, "str", "warning", e), Same(pre, p, "str", "error", e),
+    BadV(pre, p, "str", "errors", e), BadV(pre, p, "str", "Error", e), BadV(pre, p, "str", "ALL", e), BadV(pre, p, "str", "err", e) >>
 
 ---------------------------------------------------------------------------
 (* component templates *)
@@ -91,11 +123,8 @@ HTTPGun(pre, ssld, sslf) == Pre(pre, <<
     O(<<"auto-tag", "no-tag-only">>, "bool", "true", "false"),
     O(<<"httptrace", "dump">>, "bool", "false", "true"),
     O(<<"httptrace", "trace">>, "bool", "false", "true") >>)
-HTTPGunBad(pre) == << BadV(pre, <<"target">>, "str", "not-an-endpoint", "endpoint"),
-                      BadV(pre, <<"target">>, "str", "host:notaport", "endpoint"),
-                      BadV(pre, <<"auto-tag", "uri-elements">>, "int", "0", "min=1"),
-                      BadV(pre, <<"answlog", "filter">>, "str", "errors", "all | warning | error") >>
-GRPCGunBad(pre) == << BadV(pre, <<"answlog", "filter">>, "str", "errors", "all | warning | error") >>
+HTTPGunBad(pre) == EndpointC(pre, <<"target">>) \o Min1I(pre, <<"auto-tag", "uri-elements">>) \o FilterC(pre)
+GRPCGunBad(pre) == FilterC(pre)
 
 \* docs/eng/grpc-generator.md; `shared` = the plain grpc gun (the scenario gun has no shared-client)
 GRPCGun(pre, shared) == Pre(pre, <<
@@ -132,7 +161,7 @@ GRPCAmmo(pre, file) == Pre(pre, <<
     O(<<"continueonerror">>, "bool", "false", "true"),
     O(<<"maxammosize">>, "int", "0", "4096"),
     O(<<"chosencases">>, "strlist", "", "tag1|tag2") >>)
-GRPCAmmoBad(pre) == << BadV(pre, <<"limit">>, "int", "-1", "min=0"), BadV(pre, <<"passes">>, "int", "-1", "min=0") >>
+GRPCAmmoBad(pre) == Min0I(pre, <<"limit">>) \o Min0I(pre, <<"passes">>)
 
 ScenarioAmmo(pre, file) == Pre(pre, <<
     Leaf(<<"file">>, "str", "", file, file, "fix"),
@@ -155,7 +184,9 @@ JSONLines(pre) == Pre(pre, <<
     O(<<"sample-queue-size">>, "int", "*", "2048"),
     O(<<"marshal-float-with-6-digits">>, "bool", "false", "true"),
     O(<<"sort-map-keys">>, "bool", "false", "true") >>)
-JSONLinesBad(pre) == << BadV(pre, <<"sample-queue-size">>, "int", "0", "min=1") >>
+JSONLinesBad(pre) == Min1I(pre, <<"sample-queue-size">>) \o << BadV(pre, <<"sink", "path">>, "str", "", "required") >>
+PhoutBad(pre) == << OkV(pre, <<"buffer-size">>, "size", "1", "1", "byte size"), OkV(pre, <<"buffer-size">>, "size", "1KB", "1024", "byte size"),
+                    BadV(pre, <<"buffer-size">>, "size", "12parsecs", "byte size") >>
 
 \* docs/eng/load-profile.md, docs/eng/startup.md
 Dur(p, f, r)   == Leaf(p, "dur", "", f, r, "req")
@@ -167,15 +198,12 @@ Once(pre, n)   == Pre(pre, << Leaf(<<"times">>, "int", "", n, n, "req") >>)
 Unlimited(pre) == Pre(pre, << Dur(<<"duration">>, "30000", "30s") >>)
 InstStep(pre)  == Pre(pre, << O(<<"from">>, "int", "0", "10"), O(<<"to">>, "int", "0", "100"),
                               Leaf(<<"step">>, "int", "", "10", "10", "req"), Dur(<<"stepduration">>, "10000", "10s") >>)
-LineBad(pre)   == << BadV(pre, <<"from">>, "float", "-1", "min=0"), BadV(pre, <<"to">>, "float", "-1", "min=0"),
-                     BadV(pre, <<"duration">>, "dur", "0s", "min-time=1ms"), BadV(pre, <<"duration">>, "dur", "100us", "min-time=1ms") >>
-ConstBad(pre)  == << BadV(pre, <<"ops">>, "float", "-1", "min=0"), BadV(pre, <<"duration">>, "dur", "0s", "min-time=1ms") >>
-StepBad(pre)   == << BadV(pre, <<"from">>, "float", "-1", "min=0"), BadV(pre, <<"to">>, "float", "-2", "min=0"),
-                     BadV(pre, <<"step">>, "int", "0", "min=1"), BadV(pre, <<"duration">>, "dur", "0s", "min-time=1ms") >>
-OnceBad(pre)   == << BadV(pre, <<"times">>, "int", "0", "min=1"), BadV(pre, <<"times">>, "int", "-3", "min=1") >>
-UnlBad(pre)    == << BadV(pre, <<"duration">>, "dur", "0s", "min-time=1ms") >>
-InstStepBad(pre) == << BadV(pre, <<"from">>, "int", "-1", "min=0"), BadV(pre, <<"to">>, "int", "-1", "min=0"),
-                       BadV(pre, <<"step">>, "int", "0", "min=1"), BadV(pre, <<"stepduration">>, "dur", "0s", "min-time=1ms") >>
+LineBad(pre)   == Min0F(pre, <<"from">>) \o Min0F(pre, <<"to">>) \o MinTimeC(pre, <<"duration">>)
+ConstBad(pre)  == Min0F(pre, <<"ops">>) \o MinTimeC(pre, <<"duration">>)
+StepBad(pre)   == Min0F(pre, <<"from">>) \o Min0F(pre, <<"to">>) \o Min1I(pre, <<"step">>) \o MinTimeC(pre, <<"duration">>)
+OnceBad(pre)   == Min1I(pre, <<"times">>)
+UnlBad(pre)    == MinTimeC(pre, <<"duration">>)
+InstStepBad(pre) == Min0I(pre, <<"from">>) \o Min0I(pre, <<"to">>) \o Min1I(pre, <<"step">>) \o MinTimeC(pre, <<"stepduration">>)
 
 \* docs/eng/config.md: pool level, log, monitoring
 PoolTop(pre, id, rpi) == Pre(pre, <<
@@ -191,7 +219,11 @@ Top == << O(<<"log", "level">>, "level", "info", "error"),
           O(<<"monitoring", "memprofile", "enabled">>, "bool", "false", "true"),
           O(<<"monitoring", "memprofile", "file">>, "str", "memprofile.log", "mem.out") >>
 TopBad == << BadV(<<>>, <<"monitoring", "expvar", "port">>, "int", "0", "required"),
-             BadV(<<>>, <<"log", "level">>, "level", "loud", "level name") >>
+             Same(<<>>, <<"monitoring", "expvar", "port">>, "int", "1", "required"),
+             Same(<<>>, <<"monitoring", "expvar", "port">>, "int", "65535", "required"),
+             BadV(<<>>, <<"log", "level">>, "level", "loud", "level name"),
+             Same(<<>>, <<"log", "level">>, "level", "debug", "level name"),
+             Same(<<>>, <<"log", "level">>, "level", "warn", "level name") >>
 
 P1 == <<"pools", "#1">>
 P2 == <<"pools", "#2">>
@@ -215,7 +247,7 @@ V1 == [name |-> "V1",
                 Ty(G(P2), "grpc"), Ty(A(P2), "grpc/json"), Ty(R(P2), "jsonlines"), Ty(R(P2) \o <<"sink">>, "file"),
                 Ty(N(S(P2), "#1"), "const"), Ty(N(S(P2), "#2"), "step"), Ty(N(S(P2), "#3"), "once"), Ty(N(S(P2), "#4"), "unlimited"),
                 Ty(N(U(P2), "#1"), "once"), Ty(N(U(P2), "#2"), "const"), Ty(N(U(P2), "#3"), "once") >>,
-   bads |-> TopBad \o HTTPGunBad(G(P1)) \o LineBad(S(P1)) \o OnceBad(U(P1)) \o GRPCGunBad(G(P2)) \o GRPCAmmoBad(A(P2)) \o JSONLinesBad(R(P2))
+   bads |-> TopBad \o HTTPGunBad(G(P1)) \o PhoutBad(R(P1)) \o LineBad(S(P1)) \o OnceBad(U(P1)) \o GRPCGunBad(G(P2)) \o GRPCAmmoBad(A(P2)) \o JSONLinesBad(R(P2))
             \o ConstBad(N(S(P2), "#1")) \o StepBad(N(S(P2), "#2")) \o OnceBad(N(S(P2), "#3")) \o UnlBad(N(S(P2), "#4"))
             \o ConstBad(N(U(P2), "#2")),
    mwmin |-> {A(P1) \o <<"middlewares", "#1">>}]
@@ -288,8 +320,44 @@ Misspellings == << [k |-> "discard_overflow", m |-> "discard-overflow"], [k |-> 
 KeyPos(p, k) == IF \E n \in 1..Len(p) : p[n] = k THEN CHOOSE n \in 1..Len(p) : p[n] = k ELSE 0
 Respell(p, n, m) == [i \in 1..Len(p) |-> IF i = n THEN m ELSE p[i]]
 
-NoCase == [v |-> "", base |-> "", kind |-> "none", p |-> <<>>, i |-> 0, src |-> "", set |-> TRUE]
-MkCase(V, b, kind, p, i, src, set) == [v |-> V.name, base |-> b, kind |-> kind, p |-> p, i |-> i, src |-> src, set |-> set]
+\* ADVERSARIAL PLACEHOLDER ENVIRONMENTS.  A property file is a sequence of lines KEY=VALUE (docs/eng/config.md: "The contents
+\* of the file must be MY_FIELD=data"); ${property:file#KEY} is the value of the first line whose key is EXACTLY KEY, an
+\* error if there is none.  ${env:NAME} is the value of the variable named exactly NAME (may be empty), an error if unset.
+\* Files and requested keys are chosen so that keys are prefixes / extensions / case variants of each other, in both orders.
+KV(k, v) == [t |-> "kv", k |-> k, v |-> v]
+RawLine(t) == [t |-> "raw", k |-> t, v |-> ""]       \* a line without '='
+PropFiles == <<
+    [eol |-> "lf",   lines |-> << KV("token_ttl", "1h"), KV("token", "abc"), KV("tok_x", "zzz") >>],
+    [eol |-> "lf",   lines |-> << KV("token", "abc"), KV("token_ttl", "1h") >>],
+    [eol |-> "lf",   lines |-> << RawLine("# a comment"), RawLine(""), KV("dup", "first"), KV("dup", "second"), KV("empty", ""),
+                                  KV("eq", "a=b#c"), KV("tokens", "plural") >>],
+    [eol |-> "crlf", lines |-> << KV("token_ttl", "1h"), RawLine("token without equals sign"), KV("token", "abc") >>],
+    [eol |-> "lf",   lines |-> << KV("spaced ", " v"), KV("tokenizer", "t"), KV("TOKEN", "upper") >>] >>
+PropReqs == << "token", "tok", "token_ttl", "token_", "token_ttl_more", "TOKEN", "Token", "dup", "empty", "eq", "spaced", "t", "missing", "" >>
+EnvSets == << [n |-> "VERIF_PH_LONG", v |-> "long"], [n |-> "VERIF_PH", v |-> "val"], [n |-> "VERIF_EMPTY", v |-> ""] >>
+EnvReqs == << "VERIF_PH", "VERIF_P", "VERIF_PH_LONG", "VERIF_PH_LONGER", "verif_ph", "VERIF_EMPTY", "VERIF_UNSET", "VERIF" >>
+NPropReq == Len(PropReqs)
+AdvCount(src) == IF src = "property" THEN Len(PropFiles) * NPropReq ELSE Len(EnvReqs)
+AdvFile(x) == PropFiles[((x - 1) \div NPropReq) + 1]
+AdvReq(src, x) == IF src = "property" THEN PropReqs[((x - 1) % NPropReq) + 1] ELSE EnvReqs[x]
+\* the lookup: [found, v]
+PropLookup(f, key) == LET hits == {i \in 1..Len(f.lines) : f.lines[i].t = "kv" /\ f.lines[i].k = key}
+                      IN IF hits = {} THEN [found |-> FALSE, v |-> ""]
+                         ELSE [found |-> TRUE, v |-> f.lines[CHOOSE i \in hits : \A h \in hits : i <= h].v]
+EnvLookup(name) == LET hits == {i \in 1..Len(EnvSets) : EnvSets[i].n = name}
+                   IN IF hits = {} THEN [found |-> FALSE, v |-> ""] ELSE [found |-> TRUE, v |-> EnvSets[CHOOSE i \in hits : TRUE].v]
+AdvLookup(src, x) == IF src = "property" THEN PropLookup(AdvFile(x), AdvReq(src, x)) ELSE EnvLookup(AdvReq(src, x))
+\* what the driver needs to build the environment of a phadv case
+NoAdv == [src |-> "", eol |-> "lf", lines |-> <<>>, envs |-> <<>>, req |-> ""]
+AdvOf(c) == IF c.kind # "phadv" THEN NoAdv
+            ELSE [src |-> c.src, eol |-> IF c.src = "property" THEN AdvFile(c.x).eol ELSE "lf",
+                  lines |-> IF c.src = "property" THEN AdvFile(c.x).lines ELSE <<>>,
+                  envs |-> IF c.src = "env" THEN EnvSets ELSE <<>>, req |-> AdvReq(c.src, c.x)]
+
+NoCase == [v |-> "", base |-> "", kind |-> "none", p |-> <<>>, i |-> 0, src |-> "", set |-> TRUE, x |-> 0]
+MkCase(V, b, kind, p, i, src, set) == [v |-> V.name, base |-> b, kind |-> kind, p |-> p, i |-> i, src |-> src, set |-> set, x |-> 0]
+\* the string leaf the adversarial placeholders are put into
+AdvLeaf(V) == CHOOSE j \in 1..Len(V.leaves) : V.leaves[j].p = <<"pools", "#1", "id">>
 
 CasesOf(V) ==
     LET n == Len(V.leaves) IN
@@ -298,6 +366,8 @@ CasesOf(V) ==
     \cup {MkCase(V, "min", "unknown", q, 0, "", TRUE) : q \in {q \in Points(V) : Len(q) <= 3}}
     \cup {MkCase(V, "full", "wrongtype", V.leaves[j].p, j, "", TRUE) : j \in 1..n}
     \cup {MkCase(V, "full", "range", V.bads[j].p, j, "", TRUE) : j \in 1..Len(V.bads)}
+    \cup {[MkCase(V, "full", "phadv", V.leaves[AdvLeaf(V)].p, AdvLeaf(V), src, TRUE) EXCEPT !.x = x] :
+              <<src, x>> \in {sx \in {"property", "env"} \X (1..100) : sx[2] <= AdvCount(sx[1])}}
     \cup {MkCase(V, b, "ph", V.leaves[j].p, j, src, set) :
               <<b, j, src, set>> \in {x \in Bases \X (1..n) \X {"env", "property"} \X BOOLEAN :
                                           /\ V.leaves[x[2]].k \in PhKinds
@@ -323,6 +393,7 @@ Delta(c) ==
          [] c.kind = "range"     -> [set |-> <<[p |-> c.p, t |-> RT(V.bads[c.i].k), v |-> V.bads[c.i].r]>>, del |-> <<>>]
          [] c.kind = "ph"        -> [set |-> <<[p |-> c.p, t |-> "str", v |-> IF c.src = "env" THEN "${env:VERIF_PH}" ELSE "${property:@PROPS@#VERIF_PH}"]>>,
                                      del |-> <<>>]
+         [] c.kind = "phadv"     -> [set |-> <<[p |-> c.p, t |-> "str", v |-> "@ADVPH@"]>>, del |-> <<>>]   \* driver: ${src:[file#]req}
          [] c.kind = "misspell"  -> LET x == CHOOSE x \in 1..Len(Misspellings) : Misspellings[x].m = c.src
                                         n == KeyPos(c.p, Misspellings[x].k)
                                     IN [set |-> <<[p |-> Respell(c.p, n, c.src), t |-> RT(lf.k), v |-> lf.r]>>, del |-> <<c.p>>]
@@ -349,7 +420,9 @@ DocDefault(lf, via) == IF lf.p[Len(lf.p)] = "discard_overflow"
                        ELSE lf.d
 
 \* stage 1 - placeholders (VariableInjectHook runs first in the hook chain)
-Substitute(c) == IF (c.kind = "ph" /\ ~c.set /\ UnsetIsError) \/ c.kind = "phnokey" THEN "error" ELSE "ok"
+Substitute(c) == IF \/ (c.kind = "ph" /\ ~c.set /\ UnsetIsError) \/ c.kind = "phnokey"
+                    \/ (c.kind = "phadv" /\ ~AdvLookup(c.src, c.x).found /\ UnsetIsError)
+                 THEN "error" ELSE "ok"
 \* stage 2 - typed decoding of every given value
 TypedDecode(c) == IF c.kind = "wrongtype" /\ StrictTypes THEN "error" ELSE "ok"
 \* stage 3 - keys nobody consumed
@@ -359,7 +432,7 @@ RequiredMissing(c) ==
     LET V == Variants[VarByName(c.v)] IN
     \/ c.kind = "dropcomp"
     \/ c.kind = "absent" /\ V.leaves[c.i].fl = "req"
-Validation(c) == IF ValidateTags /\ (c.kind = "range" \/ RequiredMissing(c)) THEN "error" ELSE "ok"
+Validation(c) == IF ValidateTags /\ ((c.kind = "range" /\ ~Variants[VarByName(c.v)].bads[c.i].ok) \/ RequiredMissing(c)) THEN "error" ELSE "ok"
 
 Stages == <<"subst", "types", "unused", "validate">>
 StageOut(c, s) == CASE s = "subst" -> Substitute(c) [] s = "types" -> TypedDecode(c)
@@ -370,6 +443,8 @@ ValueOf(c, via, V, j) ==
     LET lf == V.leaves[j] IN
     IF c.kind = "absent" /\ IsPrefix(c.p, lf.p) THEN DocDefault(lf, via)
     ELSE IF c.kind = "ph" /\ c.i = j THEN lf.f
+    ELSE IF c.kind = "phadv" /\ c.i = j THEN AdvLookup(c.src, c.x).v
+    ELSE IF c.kind = "range" /\ c.p = lf.p THEN V.bads[c.i].v
     ELSE IF c.kind = "emb" /\ c.i = j THEN "pre-mid-post"
     ELSE IF c.kind = "emblist" /\ c.i = j THEN "[User-Agent: mid]|[X-Other: y]"
     ELSE IF c.base = "min" /\ \E q \in V.mwmin : IsPrefix(q, lf.p) THEN "*"      \* the list element does not exist at all
@@ -401,12 +476,20 @@ Strict == Done /\ cs.kind \in {"unknown", "misspell"} => err
 \* a wrongly typed value is an error
 Typed == Done /\ cs.kind = "wrongtype" => err
 \* a value violating a documented constraint is an error; so is leaving out something required
-Constrained == Done /\ (cs.kind \in {"range", "dropcomp"} \/ (cs.kind = "absent" /\ TheV.leaves[cs.i].fl = "req")) => err
+Constrained == Done /\ (\/ (cs.kind = "range" /\ ~TheV.bads[cs.i].ok) \/ cs.kind = "dropcomp"
+                         \/ (cs.kind = "absent" /\ TheV.leaves[cs.i].fl = "req")) => err
 \* a placeholder naming an unset variable / missing property is an error; a set one is not
 Placeholders == /\ (Done /\ cs.kind \in {"ph", "emb", "emblist"} => (err <=> ~cs.set))
                 /\ (Done /\ cs.kind = "phnokey" => err)      \* a malformed property placeholder is an error (not a crash)
+                \* exact key / exact name, whatever else the file / the environment holds
+                /\ (Done /\ cs.kind = "phadv" /\ cs.src = "property" =>
+                        (err <=> ~\E i \in 1..Len(AdvFile(cs.x).lines) :
+                                     AdvFile(cs.x).lines[i].t = "kv" /\ AdvFile(cs.x).lines[i].k = AdvReq("property", cs.x)))
+                /\ (Done /\ cs.kind = "phadv" /\ cs.src = "env" =>
+                        (err <=> ~\E i \in 1..Len(EnvSets) : EnvSets[i].n = AdvReq("env", cs.x)))
 \* nothing else fails
-NoSpuriousError == Done /\ (cs.kind = "none" \/ (cs.kind = "absent" /\ TheV.leaves[cs.i].fl = "opt")) => ~err
+NoSpuriousError == Done /\ (\/ cs.kind = "none" \/ (cs.kind = "absent" /\ TheV.leaves[cs.i].fl = "opt")
+                             \/ (cs.kind = "range" /\ TheV.bads[cs.i].ok)) => ~err        \* boundary values inside the constraint
 \* options that are not given keep the documented default (discard_overflow: on, through the CLI reader); given ones are kept
 DefaultsKept == Done /\ ~err =>
     \A j \in 1..Len(TheV.leaves) :
@@ -415,7 +498,9 @@ DefaultsKept == Done /\ ~err =>
                      /\ ~(cs.kind = "absent" /\ IsPrefix(cs.p, lf.p))
                      /\ (cs.base = "full" \/ ~\E q \in TheV.mwmin : IsPrefix(q, lf.p))
             v == ValueOf(cs, via, TheV, j)
-        IN IF given THEN v = (CASE cs.kind = "emb" /\ cs.i = j -> "pre-mid-post"
+        IN IF cs.kind = "phadv" /\ cs.i = j THEN TRUE                               \* see Placeholders
+           ELSE IF cs.kind = "range" /\ cs.p = lf.p THEN v = TheV.bads[cs.i].v      \* accepted boundary value is kept
+           ELSE IF given THEN v = (CASE cs.kind = "emb" /\ cs.i = j -> "pre-mid-post"
                                 [] cs.kind = "emblist" /\ cs.i = j -> "[User-Agent: mid]|[X-Other: y]"
                                 [] OTHER -> lf.f)
            ELSE IF cs.base = "min" /\ \E q \in TheV.mwmin : IsPrefix(q, lf.p) THEN TRUE
